@@ -712,8 +712,8 @@ def rule_e8(chk: Check, ix: Index):
     """E8: builtin conversions applied to text of the input (int(), float(), complex(), chr(), bytes.fromhex, ...) raise
     ValueError/OverflowError on inputs the tokenizer accepts (a 5000-digit literal exceeds the int<->str limit); such a call must
     sit in a `try` that turns the failure into a SyntaxError.  `ast.literal_eval` reports a SyntaxError itself (C11 deals with
-    where it points)."""
-    RISKY = {"int", "float", "complex", "chr", "ord", "bytes.fromhex", "bytearray.fromhex", "int.from_bytes"}
+    where it points) but also raises ValueError (UnicodeEncodeError) for a lone surrogate in the text."""
+    RISKY = {"int", "float", "complex", "chr", "ord", "bytes.fromhex", "bytearray.fromhex", "int.from_bytes", "ast.literal_eval"}
     n = 0
     for q, f in sorted(ix.funcs.items()):
         if f.rel not in (repo.SUBHEADER, repo.TOKENIZER, repo.TOKENIZE):
